@@ -72,7 +72,7 @@ def run(ctx):
                 'entities, duplicate record keys) as when and unless conditions; random policies x random or fixed environments; random '
                 'expressions for the tree comparison. Compared: folded tree (Go internal fold via verif hook = model fold), outcome of the '
                 'compiled policy through cedar.Authorize = outcome of direct evaluation of the original tree (both in Go and in the model), '
-                'caller AST untouched (DeepEqual with a twin) and text form unchanged. non-trivial = folding changed the tree')
+                'caller AST untouched (DeepEqual with a twin, after authorization and after folding) and text and JSON forms unchanged, also of the policy the set hands back. non-trivial = folding changed the tree')
     changed = [0]
 
     def nontrivial(c, gres):
